@@ -1,6 +1,7 @@
 """C06: for any input, parsing ends in a tree or FortranSyntaxError."""
 import os
 import re
+import json
 from vf import gen, layout, progs
 from vf.env import guarded_parse, VERIF_DIR
 from vf.runner import Result
@@ -275,3 +276,57 @@ def evaluate(case):
 def kf_match(entry, case, res):
     pat = entry.get("signature", {}).get("bucket_regex")
     return bool(pat and re.fullmatch(pat, res.bucket or ""))
+
+
+def extra_engine(tier, seed, flags, nproc):
+    """Thorough tier only: coverage-guided campaigns with atheris/libFuzzer (second engine, DESIGN 5 C06 domain D).
+    Returns a runner.Stats with the campaign's findings merged in, or None when atheris is unavailable."""
+    if tier != "thorough":
+        return None
+    import subprocess
+    import shutil
+    import sys
+    from vf.runner import Stats, Result
+    deps = os.path.join(VERIF_DIR, ".deps")
+    probe = subprocess.run([sys.executable, "-c", "import sys; sys.path.insert(0, %r); import atheris" % deps],
+                           capture_output=True)
+    st = Stats()
+    if probe.returncode != 0:
+        st.extra["atheris"] = "not importable: engine skipped"
+        return st
+    runs = int(os.environ.get("VERIF_FUZZ_RUNS", "20000"))
+    base = os.path.join(VERIF_DIR, ".work", "fuzz_c06_%d" % os.getpid())
+    shutil.rmtree(base, ignore_errors=True)
+    procs = []
+    for k in range(nproc):
+        wd = os.path.join(base, "shard%02d" % k)
+        os.makedirs(wd)
+        kind = "seeded" if k % 2 == 0 else "empty"
+        env = dict(os.environ, PYTHONHASHSEED="0")
+        procs.append((k, kind, wd, subprocess.Popen([sys.executable, "-m", "vf.fuzz_c06", wd, str(runs), str(seed * 100 + k + 1), kind],
+                                                    cwd=VERIF_DIR, env=env, stdout=subprocess.DEVNULL,
+                                                    stderr=subprocess.DEVNULL)))
+    execs = {"seeded": 0, "empty": 0}
+    outcomes = {"tree": 0, "syntax": 0, "failures": 0}
+    for k, kind, wd, p in procs:
+        p.wait()
+        try:
+            with open(os.path.join(wd, "findings.json")) as fh:
+                data = json.load(fh)
+        except (OSError, ValueError):
+            continue
+        execs[kind] += data["stats"]["execs"]
+        for o in outcomes:
+            outcomes[o] += data["stats"].get(o, 0)
+        for bucket, f in data["findings"].items():
+            case = {"src": f["src"], "std": f["std"], "ignore_comments": f["ignore_comments"], "reader": "string",
+                    "meta": {"origin": "atheris", "differs": True}}
+            res = Result(False, bucket, True, ["origin=atheris"], {"error": f["error"]})
+            for _ in range(max(1, f.get("count", 1))):
+                st.record(case, res)
+    st.evaluations = 0      # campaign executions are reported separately (atheris_execs_*), not as generated cases
+    st.extra["atheris_execs_seeded_corpus"] = execs["seeded"]
+    st.extra["atheris_execs_empty_corpus"] = execs["empty"]
+    st.extra["atheris_outcomes"] = outcomes
+    shutil.rmtree(base, ignore_errors=True)
+    return st
